@@ -24,7 +24,7 @@ class SmartWorld(World):
 
 
 def budget(tier):
-    return {"quick": {"runs": 4000, "wall": 170}, "thorough": {"runs": 250000, "wall": 1500}}[tier]
+    return {"quick": {"runs": 4000, "wall": 170}, "thorough": {"runs": 48000, "wall": 900}}[tier]
 
 
 FAILED = object()
